@@ -7,7 +7,8 @@ Library encoders: zlib (raw deflate), bz2, lzma, zipfile.  Own writers: gzip mem
 LHA -lh0- header levels 0/1/2, ARC/Spark stored + RLE90 (methods 1/2/3, 0x82/0x83), ArcFS stored/RLE90,
 LZX stored, PowerPacker PP20 (literals + matches), MMCMP stored + bit-packed blocks, LHA -lh4-/-lh5-/-lh6-/-lh7-
 (LZ77 incl. matches into the blank dictionary in front of the file + static Huffman blocks), ARC squeeze (Huffman node
-table over RLE90), ARC crunch / squash / Spark compress (LZW 9..16 bit in groups of 8 codes).
+table over RLE90), ARC crunch / squash / Spark compress (LZW 9..16 bit in groups of 8 codes), xz / LZMA2 with a
+chosen chunk layout (`xz_own`: container + LZMA range encoder; uncompressed and LZMA chunks, any dictionary size).
 """
 import bz2
 import io
@@ -104,6 +105,318 @@ def xz(p, check="crc32", preset=None, dict_size=None, lc=3, lp=0, pb=2, mode=Non
     co = lzma.LZMACompressor(format=lzma.FORMAT_XZ, check=XZ_CHECKS[check],
                              preset=preset if filters is None else None, filters=filters)
     return co.compress(p) + co.flush()
+
+
+# ------------------------------------------------------------------ xz / LZMA2, own writer with chosen chunk layout
+# Independent of liblzma (which only referees it): .xz container (stream header, block header with the LZMA2 dictionary
+# size, index, footer) around LZMA2 chunks whose kind the caller chooses piece by piece: *uncompressed* chunks
+# (control 0x01 with dictionary reset / 0x02) and *LZMA* chunks (control 0xC0|size bits: state reset + new properties)
+# written by a small LZMA range encoder (literals, matched literals, simple matches with every distance class).
+class _RangeEnc:
+    def __init__(s):
+        s.low = 0
+        s.range = 0xFFFFFFFF
+        s.cache = 0
+        s.cache_size = 1
+        s.out = bytearray()
+
+    def shift_low(s):
+        if s.low < 0xFF000000 or s.low >= (1 << 32):
+            carry = s.low >> 32
+            s.out.append((s.cache + carry) & 0xff)
+            for _ in range(s.cache_size - 1):
+                s.out.append((0xff + carry) & 0xff)
+            s.cache_size = 0
+            s.cache = (s.low >> 24) & 0xff
+        s.cache_size += 1
+        s.low = (s.low & 0x00FFFFFF) << 8
+
+    def bit(s, probs, i, b):
+        p = probs[i]
+        bound = (s.range >> 11) * p
+        if b == 0:
+            s.range = bound
+            probs[i] = p + ((2048 - p) >> 5)
+        else:
+            s.low += bound
+            s.range -= bound
+            probs[i] = p - (p >> 5)
+        while s.range < (1 << 24):
+            s.range = (s.range << 8) & 0xFFFFFFFF
+            s.shift_low()
+
+    def direct(s, v, nb):
+        for i in range(nb - 1, -1, -1):
+            s.range >>= 1
+            if (v >> i) & 1:
+                s.low += s.range
+            while s.range < (1 << 24):
+                s.range = (s.range << 8) & 0xFFFFFFFF
+                s.shift_low()
+
+    def finish(s):
+        for _ in range(5):
+            s.shift_low()
+        return bytes(s.out)
+
+
+def _bittree(rc, probs, base, nb, v):
+    m = 1
+    for i in range(nb - 1, -1, -1):
+        b = (v >> i) & 1
+        rc.bit(probs, base + m, b)
+        m = (m << 1) | b
+
+
+def _bittree_rev(rc, probs, base, nb, v):
+    m = 1
+    for i in range(nb):
+        b = (v >> i) & 1
+        rc.bit(probs, base + m, b)
+        m = (m << 1) | b
+
+
+def lzma_chunk(hist, toks, lc=3, lp=0, pb=2):
+    """range-coded LZMA data of the tokens (int literal | (distance-1, length)) that follow the history `hist`
+    (everything since the last dictionary reset); coder state and probabilities start fresh.  Returns (bytes, data)."""
+    rc = _RangeEnc()
+    is_match = [1024] * (12 * 16)
+    is_rep = [1024] * 12
+    dist_slot = [1024] * (4 * 64)
+    dist_special = [1024] * 128
+    dist_align = [1024] * 16
+    len_choice = [1024, 1024]
+    len_low = [1024] * (16 * 8)
+    len_mid = [1024] * (16 * 8)
+    len_high = [1024] * 256
+    literal = [1024] * (0x300 << (lc + lp))
+    state = 0
+    rep0 = 0
+    out = bytearray(hist)
+    for t in toks:
+        pos = len(out)
+        ps = pos & ((1 << pb) - 1)
+        if isinstance(t, int):
+            rc.bit(is_match, state * 16 + ps, 0)
+            prev = out[-1] if out else 0
+            base = 0x300 * (((pos & ((1 << lp) - 1)) << lc) + (prev >> (8 - lc)))
+            if state < 7:
+                _bittree(rc, literal, base, 8, t)
+            else:
+                match_byte = out[pos - rep0 - 1] << 1
+                offset = 0x100
+                symbol = 1
+                for i in range(7, -1, -1):
+                    b = (t >> i) & 1
+                    match_bit = match_byte & offset
+                    match_byte <<= 1
+                    rc.bit(literal, base + offset + match_bit + symbol, b)
+                    symbol = (symbol << 1) | b
+                    offset = (offset & match_bit) if b else (offset & ~match_bit)
+            out.append(t)
+            state = 0 if state < 4 else (state - 3 if state < 10 else state - 6)
+        else:
+            d, ln = t
+            assert 2 <= ln <= 273 and 0 <= d < pos
+            rc.bit(is_match, state * 16 + ps, 1)
+            rc.bit(is_rep, state, 0)
+            l2 = ln - 2
+            if l2 < 8:
+                rc.bit(len_choice, 0, 0)
+                m = 1
+                for i in (2, 1, 0):
+                    b = (l2 >> i) & 1
+                    rc.bit(len_low, ps * 8 + m, b)
+                    m = (m << 1) | b
+            elif l2 < 16:
+                rc.bit(len_choice, 0, 1)
+                rc.bit(len_choice, 1, 0)
+                m = 1
+                for i in (2, 1, 0):
+                    b = ((l2 - 8) >> i) & 1
+                    rc.bit(len_mid, ps * 8 + m, b)
+                    m = (m << 1) | b
+            else:
+                rc.bit(len_choice, 0, 1)
+                rc.bit(len_choice, 1, 1)
+                _bittree(rc, len_high, 0, 8, l2 - 16)
+            ds = min(l2, 3)
+            if d < 4:
+                slot = d
+            else:
+                n = d.bit_length()
+                slot = 2 * (n - 1) + ((d >> (n - 2)) & 1)
+            _bittree(rc, dist_slot, ds * 64, 6, slot)
+            if slot >= 4:
+                footer = (slot >> 1) - 1
+                basev = (2 | (slot & 1)) << footer
+                if slot < 14:
+                    _bittree_rev(rc, dist_special, basev - slot - 1, footer, d - basev)
+                else:
+                    rc.direct((d - basev) >> 4, footer - 4)
+                    _bittree_rev(rc, dist_align, 0, 4, (d - basev) & 15)
+            rep0 = d
+            for _ in range(ln):
+                out.append(out[len(out) - d - 1])
+            state = 7 if state < 7 else 10
+    return rc.finish(), bytes(out[len(hist):])
+
+
+def lz_parse(buf, start, end, dict_size, rng=None, max_match=273, chain=12):
+    """greedy LZ77 tokens for buf[start:end] with the history buf[:start] (distances up to dict_size)"""
+    heads = {}
+    for k in range(max(0, start - dict_size), start):
+        if k + 3 <= end:
+            heads.setdefault(buf[k:k + 3], []).append(k)
+    toks = []
+    i = start
+    while i < end:
+        best_len, best_d = 0, 0
+        if i + 3 <= end:
+            cl = heads.get(buf[i:i + 3])
+            if cl:
+                lim = min(max_match, end - i)
+                tried = 0
+                for q in reversed(cl):
+                    d = i - q
+                    if d > dict_size:
+                        break
+                    ln = 3
+                    while ln < lim and buf[q + ln] == buf[i + ln]:
+                        ln += 1
+                    if ln > best_len or (ln == best_len and rng is not None and rng.random() < 0.5):
+                        best_len, best_d = ln, d
+                    tried += 1
+                    if tried >= chain:
+                        break
+        if best_len >= 3:
+            toks.append((best_d - 1, best_len))
+            step = best_len
+        else:
+            toks.append(buf[i])
+            step = 1
+        for k in range(i, i + step):
+            if k + 3 <= end:
+                heads.setdefault(buf[k:k + 3], []).append(k)
+        i += step
+    return toks
+
+
+def _xz_varint(v):
+    out = bytearray()
+    while v >= 0x80:
+        out.append((v & 0x7f) | 0x80)
+        v >>= 7
+    out.append(v)
+    return bytes(out)
+
+
+def xz_dict_byte(dict_size):
+    for b in range(41):
+        if ((2 | (b & 1)) << (b // 2 + 11)) == dict_size:
+            return b
+    raise ValueError(dict_size)
+
+
+def xz_own(p, pieces, dict_size=4096, check="crc32", lc=3, lp=0, pb=2, rng=None):
+    """.xz file of `p`.  pieces: list of (length, kind) covering p, kind "raw" (uncompressed LZMA2 chunks) or "lz"
+    (LZMA chunks; matches reach back up to dict_size into everything written before).  Returns (file, chunk kinds)."""
+    assert sum(n for n, _ in pieces) == len(p)
+    body = bytearray()
+    pos = 0
+    first = True
+    need_props = True
+    kinds = []
+    for n, kind in pieces:
+        endp = pos + n
+        while pos < endp:
+            if kind == "raw":
+                k = min(endp - pos, 1 << 16)
+                body += bytes([1 if first else 2]) + struct.pack(">H", k - 1) + p[pos:pos + k]
+                if first:
+                    need_props = True
+                first = False
+                pos += k
+                kinds.append("raw")
+            else:
+                k = min(endp - pos, 1 << 15)
+                while True:
+                    toks = lz_parse(p, pos, pos + k, dict_size, rng)
+                    cdata, data = lzma_chunk(p[:pos], toks, lc, lp, pb)
+                    if len(cdata) <= (1 << 16):
+                        break
+                    k //= 2
+                assert data == p[pos:pos + k]
+                ctl = 0x80 | ((3 if first else 2) << 5) | (((k - 1) >> 16) & 0x1f)
+                body += bytes([ctl]) + struct.pack(">HH", (k - 1) & 0xffff, len(cdata) - 1) + bytes([(pb * 5 + lp) * 9 + lc]) + cdata
+                first = False
+                need_props = False
+                pos += k
+                kinds.append("lz")
+    body += b"\0"
+    chk = {"none": 0, "crc32": 1, "crc64": 4}[check]
+    flags = bytes([0, chk])
+    hdr = b"\xfd7zXZ\0" + flags + struct.pack("<I", crc32(flags))
+    bh = bytes([0x02, 0x00, 0x21, 0x01, xz_dict_byte(dict_size)]) + b"\0" * 3
+    bh += struct.pack("<I", crc32(bh))
+    if chk == 1:
+        cv = struct.pack("<I", crc32(p))
+    elif chk == 4:
+        cv = struct.pack("<Q", _crc64(p))
+    else:
+        cv = b""
+    unpadded = len(bh) + len(body) + len(cv)
+    block = bh + bytes(body) + b"\0" * ((-len(body)) % 4) + cv
+    idx = b"\0" + _xz_varint(1) + _xz_varint(unpadded) + _xz_varint(len(p))
+    idx += b"\0" * ((-len(idx)) % 4)
+    idx += struct.pack("<I", crc32(idx))
+    bs = struct.pack("<I", len(idx) // 4 - 1)
+    foot = struct.pack("<I", crc32(bs + flags)) + bs + flags + b"YZ"
+    return hdr + block + idx + foot, kinds
+
+
+def xz_mixed_payload(rng, dict_size, rounds=4):
+    """(payload, pieces) for xz_own: incompressible stretches longer than the dictionary (stored as uncompressed chunks,
+    the dictionary wraps inside them) alternate with LZMA-coded stretches that repeat earlier data at distances up to the
+    full dictionary size -- right after a wrap, in the middle of a pass, and long enough to wrap inside the LZMA chunk."""
+    D = dict_size
+    out = bytearray()
+    pieces = []
+    for r in range(rounds):
+        n = D + rng.choice([0, 1, 17, 4095, 4096, 4097, rng.randrange(1, 70000)]) if r == 0 or rng.random() < 0.6 else rng.randrange(1, D)
+        out += bytes(rng.getrandbits(8) for _ in range(n))
+        pieces.append((n, "raw"))
+        k0 = len(out)
+        out += bytes(rng.getrandbits(8) for _ in range(rng.choice([0, 0, 1, 3])))
+        for _ in range(rng.choice([1, 2, 4])):
+            d = D - rng.choice([0, 0, 1, 2, 15, 100, 1000, 2047, 4000, 4095, rng.randrange(D)])
+            d = min(max(d, 1), len(out))
+            ln = rng.choice([3, 8, 40, 273, 600, d, D + 100])
+            st = len(out) - d
+            for i in range(ln):
+                out.append(out[st + i])
+            out += bytes(rng.getrandbits(8) for _ in range(rng.choice([0, 1, 2, 30])))
+        pieces.append((len(out) - k0, "lz"))
+    return bytes(out), pieces
+
+
+def _crc64(data):
+    tab = _crc64.tab
+    if tab is None:
+        tab = []
+        for i in range(256):
+            c = i
+            for _ in range(8):
+                c = (c >> 1) ^ 0xC96C5795D7870F42 if c & 1 else c >> 1
+            tab.append(c)
+        _crc64.tab = tab
+    c = 0xFFFFFFFFFFFFFFFF
+    for b in data:
+        c = tab[(c ^ b) & 0xff] ^ (c >> 8)
+    return c ^ 0xFFFFFFFFFFFFFFFF
+
+
+_crc64.tab = None
 
 
 # ------------------------------------------------------------------ zip
